@@ -529,6 +529,67 @@ func builtinCalls(x *ctx, prop string) {
 			}
 		}
 	}
+	// NEST: the call sits inside a block, after a nested block / conditional / loop step, and its receiver or
+	// argument is a local assigned earlier in the enclosing block (row 5 in every layout)
+	{
+		layouts := []struct {
+			name string
+			pre  []string // rows 1-4
+			post []string
+		}{
+			{"block-after-inner-block", []string{"[1].each do |q|", "  lab = \"s\"", "  [2].each do |r|", "  end"}, []string{"end"}},
+			{"block-after-inner-brace-block", []string{"[1].each do |q|", "  lab = \"s\"", "  [2].each { |r| r }", "  q"}, []string{"end"}},
+			{"block-after-if", []string{"[1].each do |q|", "  lab = \"s\"", "  if q == 1", "  end"}, []string{"end"}},
+			{"while-body", []string{"zi = 0", "while zi < 1", "  lab = \"s\"", "  zi = zi + 1"}, []string{"end"}},
+			{"def-after-block", []string{"def mq", "  lab = \"s\"", "  [2].each { |r| r }", "  1"}, []string{"end", "mq"}},
+			{"two-levels", []string{"[1].each do |q|", "  [2].each do |r|", "    lab = \"s\"", "    [3].each { |t| t }"}, []string{"  end", "end"}},
+		}
+		type nestCall struct {
+			src    string
+			fits   bool
+			want   string
+			reason string
+		}
+		var calls []nestCall
+		// verdicts come from the reference model (String receiver), as everywhere else
+		for _, nc := range []struct {
+			src, method string
+			args        []string
+		}{{"lab.abs", "abs", nil}, {"\"x\".ljust(lab)", "ljust", []string{"String"}}, {"lab.length(1)", "length", []string{"Integer"}}, {"lab.chars(1, 2)", "chars", []string{"Integer", "Integer"}},
+			{"lab.upcase", "upcase", nil}, {"lab.length", "length", nil}, {"lab.ljust(3)", "ljust", []string{"Integer"}}} {
+			ms := cfg.Lookup("String", nc.method)
+			if ms == nil {
+				calls = append(calls, nestCall{nc.src, false, "", "undeclared"})
+				continue
+			}
+			v, reason, m := ref.AcceptAny(ms, nc.args)
+			switch v {
+			case ref.Fails:
+				calls = append(calls, nestCall{nc.src, false, "", reason})
+			case ref.Fits:
+				want := ""
+				if m != nil {
+					if w, ok := m.RetType("String", nil); ok {
+						want = canonType(w)
+					}
+				}
+				calls = append(calls, nestCall{nc.src, true, want, ""})
+			}
+		}
+		for _, lo := range layouts {
+			for _, cl := range calls {
+				ind := lo.pre[len(lo.pre)-1][:len(lo.pre[len(lo.pre)-1])-len(strings.TrimLeft(lo.pre[len(lo.pre)-1], " "))]
+				src := strings.Join(lo.pre, "\n") + "\n" + ind + "dbtp " + cl.src + "\n" + strings.Join(lo.post, "\n") + "\n"
+				c := bcCase{cfg: "core", src: src, recv: recvKind{"String", "\"s\"", nil}, method: "nest:" + lo.name + ":" + cl.src, args: nil, declared: true}
+				if cl.fits {
+					c.verdict, c.wantType = ref.Fits, cl.want
+				} else {
+					c.verdict, c.reason = ref.Fails, cl.reason
+				}
+				cases = append(cases, c)
+			}
+		}
+	}
 	// select by property
 	var sel []bcCase
 	for _, c := range cases {
